@@ -18,6 +18,11 @@ def gen(ctx):
     m = int(rng.integers(3, 7))
     kind = str(rng.choice(['uniform', 'lattice']))
     coords = np.unique(gen_coords(rng, n, dim=2, kind=kind), axis=0)
+    if rng.random() < 0.3:
+        # co-located stations: spatial distance exactly 0 belongs to no class (classes are open at 0)
+        k = int(rng.integers(1, 3))
+        coords = np.vstack([coords, coords[rng.integers(0, len(coords), size=k)]])
+        kind = kind + '+colocated'
     n = len(coords)
     vals = rng.normal(10, 2, size=(n, m)) + np.linspace(0, 3, m)[None, :]
     if rng.random() < 0.3:
